@@ -80,11 +80,24 @@ def scenario(chk, i):
 
 
 def alloc_worker(args):
-    chk, i = args
+    """A scenario that cannot be used (flex refuses the generated rule set, dangerous
+    trailing context, ...) is replaced by the next one of the same kind, so that the kinds
+    observed do not depend on the seed."""
+    chk, i = args[0], args[1]
+    out = None
+    for attempt in range(5):
+        out = alloc_worker1((chk, i, i + 8000 * attempt))
+        if not out.get("skipped"):
+            break
+    return out
+
+
+def alloc_worker1(args):
+    chk, i0, i = args
     name, case, cfg, inp = scenario(chk, i)
     flex = chk.flex("san")
     wd = os.path.join(chk.scratch.path, "a%d" % i)
-    out = {"i": i, "name": name, "runs": 0, "problems": [], "feats": {}, "k": 0}
+    out = {"i": i0, "name": name, "runs": 0, "problems": [], "feats": {}, "k": 0}
 
     def feat(k, n=1):
         out["feats"][k] = out["feats"].get(k, 0) + n
